@@ -136,6 +136,42 @@ def run_case(desc):
     return len(oc.ALL_BACKENDS), viols, ent
 
 
+def time_derivative_case(cooling):
+    """Odeint's Rosenbrock stepper takes, next to J, the partial derivative of the right-hand side with respect to
+    time from the same functor.  The emitted right-hand side does not depend on t, so every one of the NEQUATIONS
+    entries must come back as exactly 0 - the vector handed in is filled with NaN beforehand (as odeint hands in
+    uninitialised storage), so an entry the functor does not write is seen."""
+    from ..harness import oderun as OR
+    from ..harness.render import render, reset_globals, quiet
+    from ..ctext.stmts import read_macros
+
+    reset_globals()
+    from naunet.network import Network
+    from naunet.reactions.reaction import Reaction
+    from naunet.reactiontype import ReactionType
+
+    case = {"time_derivative": list(cooling)}
+    with quiet():
+        reacs = [Reaction(list(r), list(p_), -1.0, -1.0, 1e-10, 0.0, 0.0, ReactionType.GAS_TWOBODY, i + 1) for i, (r, p_) in enumerate(oc.PRIMORDIAL)]
+        net = Network(reacs, cooling=list(cooling))
+        files = render(net, "rosenbrock4", OR.TEMPLATES_ODEINT)
+    mac = read_macros(files["include/naunet_macros.h"])
+    neq = mac.value("NEQUATIONS")
+    yvals = [[0.5 + ((7 * i + 3 * g) % 11) / 8.0 for i in range(neq)] for g in range(2)]
+    if "IDX_TGAS" in mac.text:
+        for yv, T in zip(yvals, (8.0e3, 2.5e4)):
+            yv[mac.value("IDX_TGAS")] = T
+    base = {"nH": 1e4, "Tgas": 50.0, "zeta": 1.3e-17, "Av": 1.0, "omega": 0.5}
+    res = OR.build_and_run(files, "rosenbrock4", yvals, [dict(base, mu=-1.0, gamma=-1.0), dict(base, mu=1.3, gamma=1.6)])
+    if "error" in res:
+        return 1, [(f"C02:time-derivative:{res['error']}", f"cooling {cooling}: {res['detail'][:300]}", case)]
+    for g, r in enumerate(res["runs"]):
+        bad = [i for i, v in enumerate(r["dfdt"]) if not (v == 0.0)]
+        if bad:
+            return 1, [(f"C02:time-derivative:{'unwritten' if all(r['dfdt'][i] != r['dfdt'][i] for i in bad) else 'nonzero'}", f"cooling {cooling}, state {g}: the Jacobian functor of the Odeint back-end returns d(rhs)/dt = {[r['dfdt'][i] for i in bad]} at equations {bad} of {neq} (NaN = never written); the emitted right-hand side has no explicit time dependence", case)]
+    return 1, []
+
+
 def run(ctx):
     allc = list(cases(ctx.tier))
     seen = set()
@@ -153,10 +189,14 @@ def run(ctx):
         entries += ent
         nontriv += int(ent > 0)
         ctx.absorb(viols)
+    for n, viols in ctx.pmap(time_derivative_case, [[], ["CIC_HI"], ["CIC_HI", "RC_HII"]]):
+        evals += n
+        ctx.absorb(viols)
     fam = {}
     for d in uniq:
         fam[d.get("family", "?")] = fam.get(d.get("family", "?"), 0) + 1
     ctx.assumptions += [
+        "Odeint: the d(rhs)/dt vector the Jacobian functor also fills is compiled and executed on NaN-poisoned storage for three networks (no / one / two cooling processes): all NEQUATIONS entries exactly 0",
         "the oracle differentiates the *emitted* RHS (as read by E4), so C02 is independent of C01",
         "every non-y symbol (k, kc, gamma, kerg, npar, modifier factors) is held fixed, as the property states",
         "polynomial differentiation is exact (Fractions); the identity therefore holds for all abundance vectors",
@@ -174,6 +214,9 @@ def run(ctx):
 
 
 def replay(ctx, case):
+    if "time_derivative" in case:
+        ctx.absorb(time_derivative_case(case["time_derivative"])[1])
+        return
     case = dict(case)
     case.pop("backend", None)
     n, viols, _ = run_case(case)
